@@ -65,6 +65,9 @@ type CaseReport struct {
 	Reached      []string       `json:"reached"`
 	Samples      []string       `json:"samples,omitempty"`
 	Goroutines   int            `json:"goroutines_spawned,omitempty"`
+	Solvers      map[string]string `json:"solvers,omitempty"`
+	CrossConfirmed int `json:"obligations_confirmed_by_second_solver"`
+	CrossUnknown   int `json:"obligations_second_solver_unknown"`
 	violations   []Violation
 	funcs        map[string]struct{}
 	reachWitness map[string][]uint64
@@ -143,6 +146,9 @@ func (r *CheckRun) Run() int {
 			r.caseReports = append(r.caseReports, cr)
 			r.logf("[%s] %s{%s}: paths=%d outcomes=%v obligations=%d/%d viol=%d branchq=%d steps=%d wall=%.1fs solver=%.1fs",
 				r.spec.Property, e.Func, cr.Params, cr.Paths, cr.Outcomes, cr.Discharged, cr.Obligations, len(cr.violations), cr.BranchQ, cr.Steps, cr.WallS, cr.SolverS)
+			for k, v := range cr.Solvers {
+				r.logf("    solver %s: %s", k, v)
+			}
 			for k, v := range cr.detail {
 				if k != "ok" && k != "assume-dead" {
 					r.logf("    %s: %s", k, firstLine(v, 400))
@@ -210,6 +216,11 @@ func (r *CheckRun) explore(e *EntrySpec, t *TierSpec, params map[string]int) Cas
 		fatal: ex.fatal, detail: ex.outcomeDetail, truncated: ex.truncated, entry: e, params: params}
 	for _, st := range ex.solverStats {
 		cr.SolverS += st.Time.Seconds()
+	}
+	cr.CrossConfirmed, cr.CrossUnknown = ex.crossConfirmed, ex.crossUnknown
+	cr.Solvers = map[string]string{}
+	for k, st := range ex.byKind {
+		cr.Solvers[k] = fmt.Sprintf("queries=%d sat=%d unsat=%d unknown=%d errors=%d time=%.1fs max=%.2fs", st.Queries, st.Sat, st.Unsat, st.Unknown, st.Errors, st.Time.Seconds(), st.MaxQuery.Seconds())
 	}
 	for k := range ex.reached {
 		cr.Reached = append(cr.Reached, k)
@@ -280,7 +291,7 @@ func (r *CheckRun) triage() {
 		}
 		for oc, n := range cr.Outcomes {
 			switch oc {
-			case "unsupported", "engine-crash", "decision-limit", "depth-limit":
+			case "unsupported", "engine-crash", "depth-limit":
 				r.problems = append(r.problems, fmt.Sprintf("%s: %d path(s) ended %s: %s", tag, n, oc, firstLine(cr.detail[oc], 300)))
 			}
 		}
@@ -352,12 +363,7 @@ func (r *CheckRun) triage() {
 			}
 			r.violLines = append(r.violLines, fmt.Sprintf("VIOLATION property=%s replay=%s entry=%s label=%s params=%s count=%d", r.spec.Property, path, cr.Entry, lbl, cr.Params, len(vs)))
 		}
-		// non-termination / deadlock outcomes without an assertion label
-		for _, oc := range []string{"step-limit", "deadlock"} {
-			if cr.Outcomes[oc] > 0 {
-				r.problems = append(r.problems, fmt.Sprintf("%s: %d path(s) ended %s: %s", tag, cr.Outcomes[oc], oc, firstLine(cr.detail[oc], 300)))
-			}
-		}
+
 	}
 	if len(r.validation.Mismatches) > 0 {
 		r.problems = append(r.problems, fmt.Sprintf("translator validation: %d mismatch(es): %s", len(r.validation.Mismatches), r.validation.Mismatches[0]))
@@ -397,8 +403,8 @@ func replayConfirms(out string, v Violation) bool {
 	switch {
 	case v.Label == "panic" || v.Label == "fatal":
 		return strings.HasPrefix(out, "panic") || strings.HasPrefix(out, "crash")
-	case v.Label == "nontermination":
-		return out == "timeout"
+	case v.Label == "nontermination" || v.Label == "deadlock":
+		return out == "timeout" || strings.HasPrefix(out, "crash")
 	default:
 		return out == "violation "+v.Label
 	}
